@@ -17,6 +17,10 @@ package cpusuppress
 //                 variant 0: recoverCPUSetForBECPUManager; ex = pod dirs with a specified cpuset
 //                 variant 1: recoverCPUSetIfNeed(container depth)   variant 2: recoverCPUSetIfNeed(pod depth)
 //                 newset = the cpu ids of the node (NodeCPUInfo); nothing reserved, no LSE pods
+//          op 3 = adjust : 3 procs milli   (adjustByCPUSet: the node's processors are the cpu ids of procs, each on
+//                 its own core, one NUMA node, nothing reserved, no pods, kubelet policy none; milli = wanted BE cpus.
+//                 The code itself reads "old" and computes "new".)
+//          op 4 = restart: 4               (the plugin gets a fresh executor: empty ResourceCache)
 //          cpu sets are bit masks of cpu ids
 // output : per apply op:  nw { dir content }*nw  snapshot[nd]
 
@@ -32,6 +36,7 @@ import (
 	topov1alpha1 "github.com/k8stopologyawareschedwg/noderesourcetopology-api/pkg/apis/topology/v1alpha1"
 	"go.uber.org/mock/gomock"
 	corev1 "k8s.io/api/core/v1"
+	"k8s.io/apimachinery/pkg/api/resource"
 	metav1 "k8s.io/apimachinery/pkg/apis/meta/v1"
 
 	apiext "github.com/koordinator-sh/koordinator/apis/extension"
@@ -184,8 +189,9 @@ func vtC12BERun(in []int64) []int64 {
 	helper.SetCgroupsV2(v2)
 
 	inner := &resourceexecutor.ResourceUpdateExecutorImpl{Config: resourceexecutor.NewDefaultConfig(), ResourceCache: cache.NewCacheDefault()}
+	wrapped := &vtC12BEExec{inner: inner, env: env}
 	r := &CPUSuppress{
-		executor:               &vtC12BEExec{inner: inner, env: env},
+		executor:               wrapped,
 		cgroupReader:           resourceexecutor.NewCgroupReader(),
 		suppressPolicyStatuses: map[string]suppressPolicyStatus{},
 	}
@@ -223,6 +229,38 @@ func vtC12BERun(in []int64) []int64 {
 				panic(err)
 			}
 			env.after()
+			obs = append(obs, env.nw)
+			obs = append(obs, env.writes...)
+			obs = append(obs, env.snapshot()...)
+		case 4:
+			inner = &resourceexecutor.ResourceUpdateExecutorImpl{Config: resourceexecutor.NewDefaultConfig(), ResourceCache: cache.NewCacheDefault()}
+			inner.Run(stop)
+			wrapped.inner = inner
+		case 3:
+			procs, milli := next(), next()
+			var info metriccache.NodeCPUInfo
+			for _, id := range vtC12Mask2Ids(procs) {
+				info.ProcessorInfos = append(info.ProcessorInfos, koordletutil.ProcessorInfo{CPUID: id, CoreID: id})
+			}
+			ctl := gomock.NewController(t)
+			si := mockstatesinformer.NewMockStatesInformer(ctl)
+			si.EXPECT().GetAllPods().Return([]*statesinformer.PodMeta{}).AnyTimes()
+			si.EXPECT().GetNodeTopo().Return(&topov1alpha1.NodeResourceTopology{}).AnyTimes()
+			r.statesInformer = si
+			if v2 {
+				// kernel emulation: cpuset.cpus.effective of a cgroup in a valid hierarchy equals its cpuset.cpus
+				for d := range dirs {
+					raw, err := os.ReadFile(env.paths[d])
+					if err != nil {
+						panic(err)
+					}
+					helper.WriteCgroupFileContents(dirs[d], system.CPUSetEffectiveV2, string(raw))
+				}
+			}
+			env.writes, env.nw = nil, 0
+			r.adjustByCPUSet(resource.NewMilliQuantity(milli, resource.DecimalSI), &info)
+			env.after()
+			ctl.Finish()
 			obs = append(obs, env.nw)
 			obs = append(obs, env.writes...)
 			obs = append(obs, env.snapshot()...)
@@ -277,6 +315,38 @@ func vtC12BERun(in []int64) []int64 {
 		}
 	}
 	return obs
+}
+
+func vtC12Pop(m int64) int {
+	n := 0
+	for ; m != 0; m &= m - 1 {
+		n++
+	}
+	return n
+}
+
+// the generator's own bookkeeping of what adjustByCPUSet will pick (only used to keep later ops plausible)
+func vtC12AdjNew(procs, milli, old int64) int64 {
+	n, no := int64(vtC12Pop(procs)), int64(vtC12Pop(old))
+	c := (milli + 999) / 1000
+	if c < 2 {
+		c = 2
+	}
+	inc := (n + 9) / 10
+	if c-no > inc {
+		c = no + inc
+	}
+	if n == 0 || n < c {
+		return 0
+	}
+	var out int64
+	for i := 0; i < 63 && c > 0; i++ {
+		if procs&(int64(1)<<uint(i)) != 0 {
+			out |= int64(1) << uint(i)
+			c--
+		}
+	}
+	return out
 }
 
 func vtC12BEGen(r *rand.Rand, i int) (string, []int64) {
@@ -356,6 +426,32 @@ func vtC12BEGen(r *rand.Rand, i int) (string, []int64) {
 	for o := 0; o < nops; o++ {
 		if o > 0 && r.Intn(4) == 0 {
 			in = append(in, 1, int64(r.Intn(nd)), int64(r.Intn(2)))
+			continue
+		}
+		if o > 0 && r.Intn(8) == 0 {
+			in = append(in, 4)
+			continue
+		}
+		if r.Intn(3) == 0 {
+			// adjustByCPUSet on a node with at most 9 processors
+			procs := rnd()
+			if r.Intn(2) == 0 {
+				procs |= cur[0]
+			}
+			for vtC12Pop(procs) > 9 {
+				procs &= procs - 1
+			}
+			n := int64(vtC12Pop(procs))
+			milli := int64(r.Intn(int(n)+2)) * 1000
+			if r.Intn(4) == 0 {
+				milli = int64(r.Intn(int(n+1)*1000 + 1))
+			}
+			in = append(in, 3, procs, milli)
+			if nw := vtC12AdjNew(procs, milli, cur[0]); nw != 0 {
+				for d := range cur {
+					cur[d] = nw
+				}
+			}
 			continue
 		}
 		if r.Intn(3) == 0 {
